@@ -498,6 +498,16 @@ def get_os_arch():
         return "Unknown"
 
 
+def call_function(fn, values, environment, pos):
+    # a function value called by a built-in function binds its positional
+    # arguments like a call in the program text does (too few or too many
+    # parameters are a runtime error)
+    args = Args(pos)
+    args.addArgs(fn.getArgNames())
+    args.setArgs([None] * len(values), values)
+    return fn.execute(args, environment, pos)
+
+
 def math_result(fn, pos, *operands):
     # the host reports arguments outside the domain of a function (acos(2),
     # log(0), sqrt(-1), pow(0, -1)) and results beyond the range of a decimal
@@ -1736,9 +1746,7 @@ class FuncFind(ValueFunc):
             for idx in range(len(lst)):
                 elem = lst[idx]
                 if key:
-                    elem = key.execute(
-                        Args(pos).addArg(key.getArgNames()[0], elem), env, pos
-                    )
+                    elem = call_function(key, [elem], env, pos)
                 if elem == item:
                     return ValueInt(idx)
             return ValueInt(-1)
@@ -1800,9 +1808,7 @@ class FuncFindLast(ValueFunc):
             for idx in range(start, -1, -1):
                 elem = lst[idx]
                 if key:
-                    elem = key.execute(
-                        Args(pos).addArg(key.getArgNames()[0], elem), env, pos
-                    )
+                    elem = call_function(key, [elem], env, pos)
                 if elem == item:
                     return ValueInt(idx)
             return ValueInt(-1)
@@ -3180,22 +3186,18 @@ class FuncProcessLines(ValueFunc):
             inp = inparg.asInput()
 
             def cb(line):
-                args = Args(pos).addArg(callback.getArgNames()[0], line)
-                return callback.execute(args, env, pos)
+                return call_function(callback, [ValueString(line)], env, pos)
 
             return ValueInt(inp.process(cb))
         elif inparg.isList():
             lst = inparg.asList().value
             for element in lst:
-                args = Args(pos).addArg(
-                    callback.getArgNames()[0], element.asString()
-                )
-                callback.execute(args, env, pos)
+                call_function(callback, [element.asString()], env, pos)
             return ValueInt(len(lst))
         else:
             raise CklRuntimeError(
                 ValueString("ERROR"),
-                "Cannot process lines from " + inparg.toString(),
+                "Cannot process lines from " + inparg.type(),
                 pos,
             )
 
@@ -3735,20 +3737,18 @@ class FuncSorted(ValueFunc):
         )
         result = lst.value[:]
         for i in range(len(result)):
-            v = key.execute(
-                Args(pos).addArg(key.getArgNames()[0], result[i]), env, pos
-            )
+            v = call_function(key, [result[i]], env, pos)
             for j in range(i - 1, -1, -1):
-                v2 = key.execute(
-                    Args(pos).addArg(key.getArgNames()[0], result[j]), env, pos
-                )
-                cmpargs = (
-                    Args(pos)
-                    .addArg(cmp.getArgNames()[0], v)
-                    .addArg(cmp.getArgNames()[1], v2)
-                )
-                comparison = cmp.execute(cmpargs, env, pos).value
-                if comparison < 0:
+                v2 = call_function(key, [result[j]], env, pos)
+                comparison = call_function(cmp, [v, v2], env, pos)
+                if not comparison.isInt():
+                    raise CklRuntimeError(
+                        ValueString("ERROR"),
+                        "The comparison function must return an int "
+                        "but returned " + comparison.type(),
+                        pos,
+                    )
+                if comparison.value < 0:
                     temp = result[j + 1]
                     result[j + 1] = result[j]
                     result[j] = temp
